@@ -55,6 +55,7 @@ def main():
         if rc != 0:
             res["error"] = err[-400:]
             return res
+        sh("rm -f %s/ciderpress/lib/lib*.so" % wt)     # the pinned baseline runs without the compiled libraries
         rc, out, err = sh("/venv/bin/python -m pytest -q -p no:cacheprovider --timeout=900 --continue-on-collection-errors 2>&1 | tail -1", cwd=wt)
         res["baseline"] = out.strip()
         res["baseline_ok"] = "143 passed" in out
